@@ -58,6 +58,15 @@ EXCLUDE = set("append_file eval input interact interact_lines list_files now ran
 BIG_UNSAFE = {"^", "**", "×", "<<", ">>", "*.", ".*", "$*", "^^", "repeat", "combinations", "window", "!", "factorial", "til", "to",
               "iota", "subsequences", "permutations", "take", "drop", "str_radix", "int_radix", "is_prime", "factorize", "cycle",
               "group", "group'", "round", "floor", "ceil", "%", "//", "%%", "/!", "gcd", "lcm", "**"}
+# arithmetic / comparison / bitwise builtins: a huge argument is just a number for them (no allocation), so they get the
+# i64 boundary in both representations (machine word literal, and the same or neighbouring value as a big integer)
+ARITH = ["+", "-", "*", "/", "//", "%", "%%", "/!", "&", "|", "~", "⊕", "xor", "max", "min", "<", "<=", ">", ">=", "==", "!=",
+         "<=>", ">=<", "≤", "≥", "gcd", "lcm", "abs", "signum", "even", "odd", "not", "numerator", "denominator", "floor", "ceil",
+         "round", "subtract", "const", "id", "int", "float", "str", "repr", "in", "=>"]
+ARITH_POOL = ["0", "1", "0-1", "2", "0-2", "9223372036854775807", "0-9223372036854775807-1", "0-9223372036854775807",
+              "9223372036854775806", "4611686018427387904", "0-4611686018427387904", "3037000500", "0-3037000500", "4294967296",
+              "2^63", "0-2^63", "2^62", "2^63-1", "2^64", "7//2"]
+ARITH_BOUNDARY = list(range(5, 19))      # indices of the values near the edge of i64
 # the result lists these builtins build are in HashMap iteration order
 UNORDERED = {"group_all"}
 # one-argument results that are the unary case of a variadic function combinator, not a section
@@ -478,6 +487,43 @@ def gen_dispatch_cases(ctx, sweep, names, pool, big):
     return cases
 
 
+def gen_arith_cases(ctx, sweep_ar, arith):
+    """arithmetic/comparison/bitwise builtins x pairs from the i64-boundary pool, all surface forms"""
+    rng = ctx.rng
+    cases = []
+    N = len(ARITH_POOL)
+    per = ctx.n(16, 80)
+    for n in arith:
+        m = sweep_ar.get(n, {})
+        ok = m.get("one_kinds", {})
+        pairs = [(i, j) for i in range(N) for j in range(N) if i in ARITH_BOUNDARY or j in ARITH_BOUNDARY]
+        for i, j in rng.sample(pairs, min(per, len(pairs))):
+            p2 = [v for v, k in (("a", i), ("b", j)) if ok.get(str(k)) == "P2"]
+            pl = [v for v, k in (("a", i), ("b", j)) if ok.get(str(k)) == "PL"]
+            bnd = [("f", n, "(B f (%s) (%s))" % (" ".join(p2), " ".join(pl))), ("a", ARITH_POOL[i], None), ("b", ARITH_POOL[j], None)]
+            cases.append(Case("arith:" + n, bnd, "arith", False, curried=ok.get(str(j)) in ("P2", "PL")))
+        for i in rng.sample(ARITH_BOUNDARY, ctx.n(3, 10)):
+            p2 = ["a"] if ok.get(str(i)) == "P2" else []
+            bnd = [("f", n, "(B f (%s) ())" % " ".join(p2)), ("a", ARITH_POOL[i], None)]
+            cases.append(Case("arith1:" + n, bnd, "arith", False, arity=1))
+    return cases
+
+
+def gen_opassign_arith(ctx, arith):
+    """x f= (expression reading x) with x at the edge of i64"""
+    rng = ctx.rng
+    cases = []
+    G = "\\t -> [t]"
+    for n in arith:
+        for i in rng.sample(ARITH_BOUNDARY, ctx.n(4, 12)):
+            rs, rx = rng.choice([OA_RHS[0], OA_RHS[2], ("x - 1", None), ("0 - x", None), ("x + 1", None)])
+            setup = [f"f := {n}", f"g := {G}", "one := 1", f"a := {ARITH_POOL[i]}", "x := a"]
+            model = f"(let f (B f () ())) (let g (C 1)) (let x a) (opassign x f {rx})" if rx else None
+            cases.append(dict(label="oa-arith:" + n, setup=setup, stmt=f"x f= {rs}", target="x", oracle_setup=setup,
+                              oracle=f"f(x, {rs})", model=model, closures=["", "g"], rhs=rs))
+    return cases
+
+
 def observable(r):
     st = r.get("status")
     if st == "ok":
@@ -793,47 +839,55 @@ def run(ctx):
     tri = [POOL.index(x) for x in TRI_POOL] + ([POOL.index(x) for x in TRI_POOL_EXTRA] if not ctx.quick() else [])
     sweep = run_sweep(ctx, names, pool, big, tri)
     t_sweep = time.time() - t0
+    # the same for the arithmetic builtins over the i64-boundary pool (exhaustive 1- and 2-tuples)
+    arith = [n for n in ARITH if n in names]
+    sweep_ar = run_sweep(ctx, arith, ARITH_POOL, set(), [])
+    t_sweep = time.time() - t0
     # ---- (b) verdicts
-    diffs = [d for n in names for d in sweep[n]["diffs"]]
-    real, known = [], []
-    seen = set()
-    for d in diffs:
-        key = (d["fn"], d["kind"], d["what"].split(" vs ")[-1][:12])
-        if is_known_combinator(d):
-            known.append(d)
-            continue
-        if key in seen or len(real) >= 12:
-            continue
-        seen.add(key)
-        conf = confirm_diff(d, pool)
-        if conf:
-            real.append(conf[0])
-    if known:
-        if KNOWN_KEY in ctx.known:
-            for d in known:
-                ctx.known_hit(KNOWN_KEY, d)
-        else:
+    diffs, known = [], []
+    for sw, nms, pl in ((sweep, names, pool), (sweep_ar, arith, ARITH_POOL)):
+        real = []
+        seen = set()
+        these = [d for n in nms for d in sw[n]["diffs"]]
+        diffs += these
+        for d in these:
+            key = (d["fn"], d["kind"], d["what"].split(" vs ")[-1][:12])
+            if is_known_combinator(d):
+                known.append(d)
+                continue
+            if key in seen or len(real) >= 12:
+                continue
+            seen.add(key)
+            conf = confirm_diff(d, pl)
+            if conf:
+                real.append(conf[0])
+        if pl is pool and known and KNOWN_KEY not in ctx.known:
             real += known[:3]
-    for d in real[:20]:
-        args = [pool[i] for i in d["t"]]
-        ctx.violation("property", {
-            "part": "entry-points", "fn": d["fn"], "args": args, "tuple": d["t"], "compared": d["what"], "left": d["left"], "right": d["right"],
-            "why": d["why"], "one_arg_result": d.get("one_arg_result"),
-            "program": ("%s(%s)" % (d["fn"], ", ".join(args))) if d["kind"] == "entry" else
-                       ("f := %s; [f(%s), f(%s)(%s)]" % (d["fn"], ", ".join(args), args[-1], ", ".join(args[:-1]))),
-            "what": ("Builtin::run(vec) and the specialised entry point (run1/run2) of the same builtin disagree on these arguments"
-                     if d["kind"] == "entry" else
-                     "f(x.., y) succeeds and f(y) is a function, but f(y)(x..) differs from f(x.., y) (one-argument call is not a right section)")},
-            found=True)
+        for d in real[:20]:
+            args = [pl[i] for i in d["t"]]
+            ctx.violation("property", {
+                "part": "entry-points", "fn": d["fn"], "args": args, "tuple": d["t"], "pool": "arith" if pl is ARITH_POOL else "main",
+                "compared": d["what"], "left": d["left"], "right": d["right"],
+                "why": d["why"], "one_arg_result": d.get("one_arg_result"),
+                "program": ("f := %s; f(%s)   # Func::run(vec) vs the fused entry point reached by `a f b` / `a.f`" % (d["fn"], ", ".join(args)))
+                           if d["kind"] == "entry" else
+                           ("f := %s; [f(%s), f(%s)(%s)]" % (d["fn"], ", ".join(args), args[-1], ", ".join(args[:-1]))),
+                "what": ("Builtin::run(vec) and the specialised entry point (run1/run2) of the same builtin disagree on these arguments"
+                         if d["kind"] == "entry" else
+                         "f(x.., y) succeeds and f(y) is a function, but f(y)(x..) differs from f(x.., y) (one-argument call is not a right section)")},
+                found=True)
+    if known and KNOWN_KEY in ctx.known:
+        for d in known:
+            ctx.known_hit(KNOWN_KEY, d)
     # ---- (a) dispatch
     t1 = time.time()
-    cases = gen_dispatch_cases(ctx, sweep, names, pool, big)
+    cases = gen_dispatch_cases(ctx, sweep, names, pool, big) + gen_arith_cases(ctx, sweep_ar, arith)
     if runner is not None:
         run_dispatch(ctx, cases, runner)
         nbad = report_dispatch(ctx, cases, runner)
     else:
         nbad = 0
-    oa_cases = gen_opassign_cases(ctx, sweep, names, pool)
+    oa_cases = gen_opassign_cases(ctx, sweep, names, pool) + gen_opassign_arith(ctx, arith)
     run_opassign(ctx, oa_cases, runner)
     oa_bad = report_opassign(ctx, oa_cases, runner)
     t_disp = time.time() - t1
@@ -853,7 +907,7 @@ def run(ctx):
                             "forms": len(c.forms), "implementation_all_forms": c.impl.get("call"), "coq_model_normal_form": c.model.get("call"),
                             "reference_program": c.ref_src})
     ctx.coverage.update({
-        "evaluations": tot("calls") + forms_run + len(oa_cases),
+        "evaluations": tot("calls") + sum(sweep_ar[n]["calls"] for n in arith) + forms_run + len(oa_cases),
         "distinct_nontrivial": ok_tuples + len(nontrivial) + len({(c["label"], tuple(c["setup"]), c["stmt"]) for c in oa_cases
                                                                       if (c["impl"] or "fail") != "fail" and c["impl"] != "setup-fail"}),
         "exhaustive": True,
@@ -869,7 +923,12 @@ def run(ctx):
                   "panics_recorded_not_judged": sum(len(sweep[n]["panics"]) for n in names),
                   "hangs_recorded_not_judged": [(n, t) for n in names for t in sweep[n]["hangs"]][:20],
                   "aborts_recorded_not_judged": [(n, t) for n in names for t in sweep[n]["aborts"]][:20],
-                  "differences": len(diffs), "known_finding_differences": len(known), "wall_s": round(t_sweep, 1)},
+                  "differences": len(diffs), "known_finding_differences": len(known), "wall_s": round(t_sweep, 1),
+                  "i64_boundary_sweep": {"functions": arith, "pool": ARITH_POOL, "tuples": sum(sweep_ar[n]["tuples"] for n in arith),
+                                         "direct_calls": sum(sweep_ar[n]["calls"] for n in arith),
+                                         "outcome_comparisons": sum(sweep_ar[n]["compared"] for n in arith),
+                                         "tuples_returning_a_value": sum(len(sweep_ar[n]["oks"]) for n in arith),
+                                         "panics_recorded": [(p["fn"], [ARITH_POOL[i] for i in p["t"]], p["entry"]) for n in arith for p in sweep_ar[n]["panics"]][:40]}},
         "dispatch": {"cases": len(cases), "form_evaluations": forms_run, "by_function_kind_and_arity": by_kind,
                      "cases_with_value": len(nontrivial), "cases_all_fail": sum(1 for c in cases if runner is not None and c.impl.get("call") == "fail"),
                      "cases_with_model_reference": sum(1 for c in cases if getattr(c, "ref", None) is not None),
@@ -877,7 +936,7 @@ def run(ctx):
                      "cases_skipped_too_slow": sum(1 for c in cases if getattr(c, "hung", False)),
                      "suspicious": nbad, "wall_s": round(t_disp, 1)},
         "opassign_reading_target": {
-            "cases": len(oa_cases), "index_target_cases": sum(1 for c in oa_cases if c["model"] is None),
+            "cases": len(oa_cases), "index_target_cases": sum(1 for c in oa_cases if c["label"].startswith("oa-index")),
             "with_value": sum(1 for c in oa_cases if (c["impl"] or "fail") not in ("fail", "setup-fail")),
             "all_fail": sum(1 for c in oa_cases if c["impl"] == "fail"),
             "compared_with_model_normal_form": sum(1 for c in oa_cases if c.get("ref_val") not in (None, "setup-fail")),
@@ -901,7 +960,7 @@ def replay(ctx, rep):
     runner = common.standard_prelude(ctx)
     if rep.get("part") == "entry-points":
         d = {"fn": rep["fn"], "t": rep["tuple"], "kind": "entry" if "entry point" in rep["what"] else "section", "what": rep["compared"]}
-        pool = POOL + POOL_EXTRA if max(rep["tuple"]) >= len(POOL) else POOL
+        pool = ARITH_POOL if rep.get("pool") == "arith" else (POOL + POOL_EXTRA if max(rep["tuple"]) >= len(POOL) else POOL)
         conf = confirm_diff(d, pool)
         print(json.dumps({"fn": rep["fn"], "args": rep["args"], "still_differs": bool(conf), "now": conf[:1]}))
         return 1 if conf else 0
